@@ -42,7 +42,7 @@ package gov
 //@   requires prop.MajorOption != nil && prop.OptType == 257 ==> govjson_ok(content(prop.MajorOption.option))   [C15]
 //@   assert@call(Unmarshal,0): content($arg0) == content(prop.MajorOption.option)
 //@   assert@call(From,0): false                                                                                [C09,C15]
-//@   assumes cons_ok && ctrler != nil && ctrler.frozenLedger != nil && ctrler.paramsLedger != nil
+//@   assumes cons_ok && ctrler != nil && ctrler.frozenLedger != nil && ctrler.paramsLedger != nil && ctrler.logger != nil
 //@   modifies everything
 //@   assert@call(DelFinality,0): prop.ApplyingHeight <= height && $target == ctrler.frozenLedger              [C15]
 //@   assert@call(MergeGovParams,0): prop.ApplyingHeight <= height && prop.MajorOption != nil && prop.OptType == 257 && $arg0 == ctrler.GovParams && $arg1 == newGovParams   [C15]
